@@ -675,6 +675,17 @@ def run(tier, seed):
                             'op_225255', 'op_232255', 'op_235', 'op_236', 'op_237000', 'op_237255', 'op_zero_rep', 'op_nested_rep',
                             'op_same_template_other_data', 'op_near_twin_template', 'op_bitmap_in_rep', 'table_d_program', 'table_d_decodes', 'corpus',
                             'library_reading_replication_under_operator', 'library_reading_205_206_under_204', 'library_reading_decodes']
+    # hand-laid-out messages whose subsets share their layout while their bitmaps select other elements (the marker labels
+    # differ from subset to subset), and templates that end inside an operator scope: compiled against not compiled
+    for name, c in gmsg.same_shape_other_bitmap_cases():
+        if c.decoded.unbalanced():
+            continue
+        for cache_max in (0, 2):
+            h = History([c], [0, 0], cache_max)
+            out = check_history(h)
+            rep.add_case('named:%s:%d' % (name, cache_max), True, ['same_descriptors_other_bitmap'], None)
+            for clause, detail in out.failures:
+                rep.add_failure('same descriptors, other bitmap (%s): %s' % (name, clause), detail, h.to_json(), stage='hand-laid-out')
     fuzz.run_structured(rep, 'checks.c08', _fuzz_gen, tier)
     return rep.finish()
 
